@@ -71,9 +71,9 @@ theorem dirStep_inv (src dst : EP) (b : Bool) (d : Dir) (h : DirInv src d) : Dir
       cases hwe : d.wfEnv with
       | false => rfl
       | true => exact absurd (h.wfd hwe) hd
-    have hdr := rdNext_data_rest d.pending src.fused cloudconstants.CopyBufferSize
-    have hfr := rdNext_fin_rest d.pending src.fused cloudconstants.CopyBufferSize
-    generalize rdNext d.pending src.fused cloudconstants.CopyBufferSize = r at hdr hfr
+    have hdr := rdNext_data_rest d.pending src.fusedEff cloudconstants.CopyBufferSize
+    have hfr := rdNext_fin_rest d.pending src.fusedEff cloudconstants.CopyBufferSize
+    generalize rdNext d.pending src.fusedEff cloudconstants.CopyBufferSize = r at hdr hfr
     by_cases he : r.data.isEmpty = true
     · have he' : r.data = [] := List.isEmpty_iff.mp he
       simp only [he, if_true]
@@ -108,8 +108,8 @@ theorem dirStep_rem (src dst : EP) (b : Bool) (d : Dir) : (dirStep src dst b d).
   · simp [hd, Dir.rem]
   · have hd' : d.done = false := by simpa using hd
     simp only [hd]
-    have hm := rdNext_meas d.pending src.fused cloudconstants.CopyBufferSize copyBuf_pos
-    have hnil := rdNext_nil src.fused cloudconstants.CopyBufferSize
+    have hm := rdNext_meas d.pending src.fusedEff cloudconstants.CopyBufferSize copyBuf_pos
+    have hnil := rdNext_nil src.fusedEff cloudconstants.CopyBufferSize
     have hrem : d.rem = meas d.pending + 1 := by simp [Dir.rem, hd']
     rw [hrem]
     cases hp : d.pending with
@@ -118,7 +118,7 @@ theorem dirStep_rem (src dst : EP) (b : Bool) (d : Dir) : (dirStep src dst b d).
     | cons c cs =>
       have hm' := hm (by simp [hp])
       rw [hp] at hm'
-      generalize rdNext (c :: cs) src.fused cloudconstants.CopyBufferSize = r at hm'
+      generalize rdNext (c :: cs) src.fusedEff cloudconstants.CopyBufferSize = r at hm'
       by_cases he : r.data.isEmpty = true
       · simp only [he, if_true]
         by_cases hf : r.fin = true
@@ -215,88 +215,199 @@ theorem tcpRun_inv (A B : EP) (σ : List TTok) : TcpInv A B (tcpRun A B σ) :=
 /-- No Write is in progress. -/
 def TcpSt.quiet (s : TcpSt) : Prop := s.abHeld = none ∧ s.baHeld = none
 
-/-- A schedule of uninterrupted iterations only. -/
-def plainT (τ : List TTok) : Prop := ∀ t ∈ τ, t = .a ∨ t = .b
-
 theorem tcp_release_quiet (A B : EP) (s : TcpSt) : (tcpStep A B (tcpStep A B s .ax) .bx).quiet := by
   unfold tcpStep TcpSt.quiet
   dsimp only
   cases h1 : s.abHeld <;> cases h2 : s.baHeld <;> simp [h1, h2]
 
-theorem tcpFold_plain (A B : EP) (τ : List TTok) (hτ : plainT τ) : ∀ s : TcpSt, s.quiet →
-    (τ.foldl (tcpStep A B) s).quiet ∧
-    (τ.foldl (tcpStep A B) s).ab.rem ≤ s.ab.rem - τ.count .a ∧
-    (τ.foldl (tcpStep A B) s).ba.rem ≤ s.ba.rem - τ.count .b := by
-  induction τ with
-  | nil => intro s hq; exact ⟨hq, by simp, by simp⟩
-  | cons t τ ih =>
-    intro s hq
-    have ht := hτ t (by simp)
-    have hτ' : plainT τ := fun x hx => hτ x (by simp [hx])
-    rw [List.foldl_cons]
-    cases ht with
-    | inl ha =>
-      subst ha
-      have hs : tcpStep A B s .a = { s with ab := dirStep A B s.bSeen s.ab } := by
-        simp [tcpStep, hq.1]
-      have hq' : (tcpStep A B s .a).quiet := by rw [hs]; exact hq
-      have h1 : (tcpStep A B s .a).ab.rem ≤ s.ab.rem - 1 := by rw [hs]; exact dirStep_rem A B _ _
-      have h2 : (tcpStep A B s .a).ba = s.ba := by rw [hs]
-      have := ih hτ' _ hq'
-      rw [h2] at this
-      refine ⟨this.1, ?_, ?_⟩
-      · simp only [List.count_cons_self]; omega
-      · have hc : (TTok.a :: τ).count .b = τ.count .b := by simp [List.count_cons]
-        rw [hc]; exact this.2.2
-    | inr hb =>
-      subst hb
-      have hs : tcpStep A B s .b = { s with ba := dirStep B A s.aSeen s.ba } := by
-        simp [tcpStep, hq.2]
-      have hq' : (tcpStep A B s .b).quiet := by rw [hs]; exact hq
-      have h1 : (tcpStep A B s .b).ba.rem ≤ s.ba.rem - 1 := by rw [hs]; exact dirStep_rem B A _ _
-      have h2 : (tcpStep A B s .b).ab = s.ab := by rw [hs]
-      have := ih hτ' _ hq'
-      rw [h2] at this
-      refine ⟨this.1, ?_, ?_⟩
-      · have hc : (TTok.b :: τ).count .a = τ.count .a := by simp [List.count_cons]
-        rw [hc]; exact this.2.1
-      · simp only [List.count_cons_self]; omega
+/-- Passive peers can be told (their object implements `CloseWrite`) and not both sides are passive —
+otherwise nobody ever ends and the relay rightly never returns. -/
+def TcpWF (A B : EP) : Prop :=
+  ¬ (A.tail = .hold ∧ B.tail = .hold) ∧ (A.tail = .hold → A.kind = .cw) ∧ (B.tail = .hold → B.kind = .cw)
 
-/-- Whatever happened before (any interleaving, Writes left in progress): once the pending Writes
-complete and both goroutines get enough uninterrupted turns, both finish and `wg.Wait()` passes. -/
-theorem tcpRun_returned (A B : EP) (σ τ : List TTok) (hτ : plainT τ)
-    (ha : stepsFor A.reads ≤ τ.count .a) (hb : stepsFor B.reads ≤ τ.count .b) :
-    (tcpRun A B (σ ++ [.ax, .bx] ++ τ)).returned = true := by
-  unfold tcpRun
-  rw [List.foldl_append, List.foldl_append]
+/-- The A→B goroutine has finished, or waits in a Read on a passive A. -/
+def AIdle (A : EP) (s : TcpSt) : Prop := s.ab.done = true ∨ (s.ab.pending = [] ∧ A.tail = .hold)
+
+theorem stepA_quiet (A B : EP) (s : TcpSt) (hq : s.quiet) :
+    (tcpStep A B s .a).quiet ∧ (tcpStep A B s .a).ba = s.ba ∧
+    (tcpStep A B s .a = s ∨ (blockedRead A s.ab (s.toldA A) = false ∧ (tcpStep A B s .a).ab = dirStep A B s.bSeen s.ab)) := by
+  by_cases hb : blockedRead A s.ab (s.toldA A) = true
+  · have he : tcpStep A B s .a = s := by simp [tcpStep, hq.1, hb]
+    rw [he]; exact ⟨hq, rfl, Or.inl rfl⟩
+  · have hb' : blockedRead A s.ab (s.toldA A) = false := by simpa using hb
+    have he : tcpStep A B s .a = { s with ab := dirStep A B s.bSeen s.ab } := by simp [tcpStep, hq.1, hb']
+    rw [he]; exact ⟨hq, rfl, Or.inr ⟨hb', rfl⟩⟩
+
+theorem stepB_quiet (A B : EP) (s : TcpSt) (hq : s.quiet) :
+    (tcpStep A B s .b).quiet ∧ (tcpStep A B s .b).ab = s.ab ∧
+    (tcpStep A B s .b = s ∨ (blockedRead B s.ba (s.toldB B) = false ∧ (tcpStep A B s .b).ba = dirStep B A s.aSeen s.ba)) := by
+  by_cases hb : blockedRead B s.ba (s.toldB B) = true
+  · have he : tcpStep A B s .b = s := by simp [tcpStep, hq.2, hb]
+    rw [he]; exact ⟨hq, rfl, Or.inl rfl⟩
+  · have hb' : blockedRead B s.ba (s.toldB B) = false := by simpa using hb
+    have he : tcpStep A B s .b = { s with ba := dirStep B A s.aSeen s.ba } := by simp [tcpStep, hq.2, hb']
+    rw [he]; exact ⟨hq, rfl, Or.inr ⟨hb', rfl⟩⟩
+
+theorem dirStep_keeps_idle (src dst : EP) (b : Bool) (d : Dir) (h : d.done = true ∨ d.pending = []) :
+    (dirStep src dst b d).done = true ∨ (dirStep src dst b d).pending = [] := by
+  cases h with
+  | inl hd => rw [dirStep_done_mono _ _ _ _ hd]; exact Or.inl hd
+  | inr hp =>
+    by_cases hd : d.done = true
+    · rw [dirStep_done_mono _ _ _ _ hd]; exact Or.inl hd
+    · left
+      simp [dirStep, hd, hp, rdNext, Dir.finishRead]
+
+theorem aidle_stepA (A B : EP) (s : TcpSt) (hq : s.quiet) (h : AIdle A s) : AIdle A (tcpStep A B s .a) := by
+  obtain ⟨_, _, h3⟩ := stepA_quiet A B s hq
+  cases h3 with
+  | inl he => rw [he]; exact h
+  | inr he =>
+    unfold AIdle
+    rw [he.2]
+    cases h with
+    | inl hd => exact Or.inl (by rw [dirStep_done_mono _ _ _ _ hd]; exact hd)
+    | inr hp =>
+      have := dirStep_keeps_idle A B s.bSeen s.ab (Or.inr hp.1)
+      cases this with
+      | inl hd => exact Or.inl hd
+      | inr hp' => exact Or.inr ⟨hp', hp.2⟩
+
+theorem phaseA (A B : EP) (n : Nat) : ∀ s : TcpSt, s.quiet → s.ab.rem ≤ n →
+    ((List.replicate n TTok.a).foldl (tcpStep A B) s).quiet ∧ AIdle A ((List.replicate n TTok.a).foldl (tcpStep A B) s) ∧
+    ((List.replicate n TTok.a).foldl (tcpStep A B) s).ba = s.ba := by
+  induction n with
+  | zero =>
+    intro s hq hr
+    simp only [List.replicate_zero, List.foldl_nil]
+    exact ⟨hq, Or.inl ((Dir.rem_zero_iff _).mp (by omega)), trivial⟩
+  | succ n ih =>
+    intro s hq hr
+    rw [List.replicate_succ, List.foldl_cons]
+    obtain ⟨q1, b1, h3⟩ := stepA_quiet A B s hq
+    have idle_fold : ∀ (k : Nat) (s' : TcpSt), s'.quiet → AIdle A s' →
+        ((List.replicate k TTok.a).foldl (tcpStep A B) s').quiet ∧ AIdle A ((List.replicate k TTok.a).foldl (tcpStep A B) s') ∧
+        ((List.replicate k TTok.a).foldl (tcpStep A B) s').ba = s'.ba := by
+      intro k
+      induction k with
+      | zero => intro s' a b; exact ⟨a, b, rfl⟩
+      | succ k ihk =>
+        intro s' a b
+        rw [List.replicate_succ, List.foldl_cons]
+        obtain ⟨q, bb, _⟩ := stepA_quiet A B s' a
+        have := ihk _ q (aidle_stepA A B s' a b)
+        exact ⟨this.1, this.2.1, by rw [this.2.2, bb]⟩
+    cases h3 with
+    | inl he =>
+      -- blocked: passive A, not told
+      have hbl : blockedRead A s.ab (s.toldA A) = true ∨ s.abHeld.isSome = true ∨ AIdle A s := by
+        by_cases hi : AIdle A s
+        · exact Or.inr (Or.inr hi)
+        · left
+          -- the step changed nothing although the goroutine was runnable: impossible unless blocked
+          by_cases hb : blockedRead A s.ab (s.toldA A) = true
+          · exact hb
+          · exfalso
+            have hb' : blockedRead A s.ab (s.toldA A) = false := by simpa using hb
+            have hab : (tcpStep A B s .a).ab = dirStep A B s.bSeen s.ab := by
+              simp [tcpStep, hq.1, hb']
+            rw [he] at hab
+            have hrem := dirStep_rem A B s.bSeen s.ab
+            rw [← hab] at hrem
+            have hnd : ¬ s.ab.done = true := fun hd => hi (Or.inl hd)
+            have : s.ab.rem ≠ 0 := fun h0 => hnd ((Dir.rem_zero_iff _).mp h0)
+            omega
+      have hidle : AIdle A s := by
+        rcases hbl with hb | hb | hb
+        · simp only [blockedRead, Bool.and_eq_true, List.isEmpty_iff, beq_iff_eq] at hb
+          exact Or.inr ⟨hb.1.1, hb.1.2⟩
+        · rw [hq.1] at hb; simp at hb
+        · exact hb
+      have := idle_fold n _ q1 (aidle_stepA A B s hq hidle)
+      exact ⟨this.1, this.2.1, by rw [this.2.2, b1]⟩
+    | inr he =>
+      have hrem : (tcpStep A B s .a).ab.rem ≤ n := by
+        rw [he.2]; have := dirStep_rem A B s.bSeen s.ab; omega
+      have := ih _ q1 hrem
+      exact ⟨this.1, this.2.1, by rw [this.2.2, b1]⟩
+
+theorem phaseB (A B : EP) (hwf : TcpWF A B) (m : Nat) : ∀ s : TcpSt, s.quiet → AIdle A s → s.ba.rem ≤ m →
+    ((List.replicate m TTok.b).foldl (tcpStep A B) s).quiet ∧ AIdle A ((List.replicate m TTok.b).foldl (tcpStep A B) s) ∧
+    ((List.replicate m TTok.b).foldl (tcpStep A B) s).ba.done = true := by
+  induction m with
+  | zero =>
+    intro s hq hi hr
+    simp only [List.replicate_zero, List.foldl_nil]
+    exact ⟨hq, hi, (Dir.rem_zero_iff _).mp (by omega)⟩
+  | succ m ih =>
+    intro s hq hi hr
+    rw [List.replicate_succ, List.foldl_cons]
+    obtain ⟨q1, a1, h3⟩ := stepB_quiet A B s hq
+    have hi' : AIdle A (tcpStep A B s .b) := by unfold AIdle; rw [a1]; exact hi
+    apply ih _ q1 hi'
+    by_cases hd : s.ba.done = true
+    · cases h3 with
+      | inl he => rw [he]; simp [Dir.rem, hd]
+      | inr he => rw [he.2, dirStep_done_mono _ _ _ _ hd]; simp [Dir.rem, hd]
+    · -- not blocked: a passive B has been told, because A→B is over (A is not passive as well)
+      have hnb : blockedRead B s.ba (s.toldB B) = false := by
+        cases hb : blockedRead B s.ba (s.toldB B) with
+        | false => rfl
+        | true =>
+          exfalso
+          simp only [blockedRead, Bool.and_eq_true, List.isEmpty_iff, beq_iff_eq, Bool.not_eq_true'] at hb
+          have hBh : B.tail = .hold := hb.1.2
+          have hAd : s.ab.done = true := by
+            cases hi with
+            | inl h => exact h
+            | inr h => exact absurd ⟨h.2, hBh⟩ hwf.1
+          have : s.toldB B = true := by simp [TcpSt.toldB, hAd, hwf.2.2 hBh, tryCloseWrite]
+          rw [this] at hb; cases hb.2
+      have hba : (tcpStep A B s .b).ba = dirStep B A s.aSeen s.ba := by
+        simp [tcpStep, hq.2, hnb]
+      rw [hba]
+      have := dirStep_rem B A s.aSeen s.ba
+      omega
+
+theorem lastA (A B : EP) (hwf : TcpWF A B) (s : TcpSt) (hq : s.quiet) (hi : AIdle A s) (hb : s.ba.done = true) :
+    (tcpStep A B s .a).returned = true := by
+  obtain ⟨_, b1, h3⟩ := stepA_quiet A B s hq
+  unfold TcpSt.returned
+  rw [b1, hb, Bool.and_true]
+  cases hi with
+  | inl hd =>
+    cases h3 with
+    | inl he => rw [he]; exact hd
+    | inr he => rw [he.2, dirStep_done_mono _ _ _ _ hd]; exact hd
+  | inr hp =>
+    have htold : s.toldA A = true := by simp [TcpSt.toldA, hb, hwf.2.1 hp.2, tryCloseWrite]
+    have hnb : blockedRead A s.ab (s.toldA A) = false := by simp [blockedRead, htold]
+    have hab : (tcpStep A B s .a).ab = dirStep A B s.bSeen s.ab := by simp [tcpStep, hq.1, hnb]
+    rw [hab]
+    by_cases hd : s.ab.done = true
+    · rw [dirStep_done_mono _ _ _ _ hd]; exact hd
+    · simp [dirStep, hd, hp.1, rdNext, Dir.finishRead]
+
+/-- Whatever happened before (any interleaving, Writes left in progress, errors on either side): once the
+pending Writes complete and the goroutines get their turns, both finish and `wg.Wait()` passes — a
+passive peer included, because the end of the other direction is always signalled to it. -/
+theorem tcpRun_returned (A B : EP) (hwf : TcpWF A B) (σ : List TTok) :
+    (tcpRun A B (tcpComplete A B σ)).returned = true := by
+  unfold tcpRun tcpComplete
+  rw [List.foldl_append, List.foldl_append, List.foldl_append, List.foldl_append]
   have h0 := tcpFold_inv A B σ _ (tcpInit_inv A B)
   generalize σ.foldl (tcpStep A B) (tcpInit A B) = s0 at h0
   have hq := tcp_release_quiet A B s0
   have h1 := tcpStep_inv A B _ .bx (tcpStep_inv A B s0 .ax h0)
   simp only [List.foldl_cons, List.foldl_nil]
   generalize tcpStep A B (tcpStep A B s0 .ax) .bx = s1 at hq h1
-  have := tcpFold_plain A B τ hτ s1 hq
-  have r1 := h1.abr
-  have r2 := h1.bar
-  have d1 : (τ.foldl (tcpStep A B) s1).ab.done = true := (Dir.rem_zero_iff _).mp (by omega)
-  have d2 : (τ.foldl (tcpStep A B) s1).ba.done = true := (Dir.rem_zero_iff _).mp (by omega)
-  simp [TcpSt.returned, d1, d2]
-
-theorem tcpComplete_eq (A B : EP) (σ : List TTok) :
-    tcpComplete A B σ = σ ++ [.ax, .bx] ++ (List.replicate (stepsFor A.reads) .a ++ List.replicate (stepsFor B.reads) .b) := by
-  simp [tcpComplete, List.append_assoc]
-
-theorem drain_plain (n m : Nat) : plainT (List.replicate n .a ++ List.replicate m .b) := by
-  intro t ht
-  simp only [List.mem_append, List.mem_replicate] at ht
-  cases ht with
-  | inl h => exact Or.inl h.2
-  | inr h => exact Or.inr h.2
-
-theorem drain_counts (n m : Nat) :
-    n ≤ (List.replicate n TTok.a ++ List.replicate m TTok.b).count .a ∧
-    m ≤ (List.replicate n TTok.a ++ List.replicate m TTok.b).count .b := by
-  simp [List.count_append, List.count_replicate]
+  have pa := phaseA A B (stepsFor A.reads) s1 hq h1.abr
+  have hbr : ((List.replicate (stepsFor A.reads) TTok.a).foldl (tcpStep A B) s1).ba.rem ≤ stepsFor B.reads := by
+    rw [pa.2.2]; exact h1.bar
+  generalize (List.replicate (stepsFor A.reads) TTok.a).foldl (tcpStep A B) s1 = s2 at pa hbr
+  have pb := phaseB A B hwf (stepsFor B.reads) s2 pa.1 pa.2.1 hbr
+  generalize (List.replicate (stepsFor B.reads) TTok.b).foldl (tcpStep A B) s2 = s3 at pb
+  exact lastA A B hwf s3 pb.1 pb.2.1 pb.2.2
 
 theorem dir_final (src : EP) (d : Dir) (h : DirInv src d) (hd : d.done = true) :
     (d.wfEnv || d.delivered == src.reads.flatten) = true := by
@@ -1277,6 +1388,12 @@ theorem udpStep_inv (c : UdpCase) (s : UdpSt) (t : UTok) (h : UdpInv c s) : UdpI
       dsimp only
       obtain ⟨a, b, cc, dd⟩ := h.dh d hh
       exact commit_inv c s d h a b cc dd
+  | s =>
+    dsimp only
+    split
+    · exact ⟨h.dec, h.enc, h.cw, h.ucl, h.hold, h.early, h.remb, h.plen, h.dh⟩
+    · exact h
+  | sa => exact ⟨h.dec, h.enc, h.cw, h.ucl, h.hold, h.early, h.remb, h.plen, h.dh⟩
 
 theorem udpFold_inv (c : UdpCase) (σ : List UTok) (s : UdpSt) (h : UdpInv c s) :
     UdpInv c (σ.foldl (udpStep .repaired c) s) := by
@@ -1488,9 +1605,10 @@ Writes left in progress on a slow tunnel or socket): once those Writes complete 
 gets its turns, no stream content, cut position or ending makes it spin or hang (as long as not
 both sides stay silent forever). -/
 theorem udp_returned (c : UdpCase) (hwf : ¬ (c.utail = .hold ∧ c.ttail = .hold)) (σ : List UTok) :
-    (udpRun .repaired c (udpComplete c σ)).returned = true ∧ UdpInv c (udpRun .repaired c (udpComplete c σ)) := by
+    (udpRun .repaired c (udpComplete c σ)).returned = true ∧ UdpInv c (udpRun .repaired c (udpComplete c σ)) ∧
+    (udpRun .repaired c (udpComplete c σ)).nsent = (udpRun .repaired c (udpComplete c σ)).dec.out.length := by
   unfold udpRun udpComplete
-  rw [List.foldl_append, List.foldl_append, List.foldl_append, List.foldl_append]
+  rw [List.foldl_append, List.foldl_append, List.foldl_append, List.foldl_append, List.foldl_append]
   have h0 := udpFold_inv c σ _ (udpInv_init c)
   generalize σ.foldl (udpStep .repaired c) (udpInit c) = s0 at h0
   have g1 := release_good c s0 h0
@@ -1500,7 +1618,10 @@ theorem udp_returned (c : UdpCase) (hwf : ¬ (c.utail = .hold ∧ c.ttail = .hol
   generalize (List.replicate (c.uevs.length + 1) UTok.u).foldl (udpStep .repaired c) s1 = s2 at p1
   have d2 := tphase c hwf (stepsFor c.tchunks) s2 p1.1 p1.2 p1.1.1.remb
   generalize (List.replicate (stepsFor c.tchunks) UTok.t).foldl (udpStep .repaired c) s2 = s3 at d2
-  exact ⟨lastU c s3 d2.1 d2.2, udpStep_inv c s3 .u d2.1.1⟩
+  have r4 := lastU c s3 d2.1 d2.2
+  have i4 := udpStep_inv c s3 .u d2.1.1
+  generalize udpStep .repaired c s3 .u = s4 at r4 i4
+  exact ⟨by simpa [udpStep, UdpSt.returned] using r4, udpStep_inv c s4 .sa i4, by simp [udpStep]⟩
 
 /-! ### from the invariants to the property predicate -/
 
@@ -1570,6 +1691,15 @@ theorem holdsUdp_of (sc : UdpSpecCase) (chunks : List Bytes) (hflat : chunks.fla
       simp
   simp only [holdsUdp, udpObs, ret, c2, c3, c4]
   rfl
+
+/-- The same when the local side is the asynchronous virtual connection and its queue has been sent. -/
+theorem holdsUdpV_of (sc : UdpSpecCase) (chunks : List Bytes) (hflat : chunks.flatten = sc.stream) (s : UdpSt)
+    (inv : UdpInv ⟨sc.uevs, sc.utail, chunks, sc.ttail, sc.tfused⟩ s) (ret : s.returned = true)
+    (hs : s.nsent = s.dec.out.length) :
+    holdsUdp sc (udpObsV s) = true := by
+  have : udpObsV s = udpObs s := by
+    simp only [udpObsV, udpObs, hs, List.take_length]
+  rw [this]; exact holdsUdp_of sc chunks hflat s inv ret
 
 /-! ### SOCKS5 UDP tunnel codec -/
 
